@@ -305,9 +305,10 @@ Quiescent == (\A c \in Callers : ~InCall(c)) /\ fpc.st \in {"idle", "done"}
 AllDone == Quiescent /\ (\A c \in Callers : cpc[c].i > Len(Progs[c])) /\ (FlushProg = <<>> \/ fpc.st = "done")
 
 \* C02: no installed entry dangles
-NoDangling ==
-  /\ \A n \in NIs : \A k \in DOMAIN ip[n] : ip[n][k].g \in DOMAIN nhg[ip[n][k].gni]
-  /\ \A n \in NIs : \A g \in DOMAIN nhg[n] : nhg[n][g] \subseteq nh[n]
+NoDanglingIn(N, G, I) ==
+  /\ \A n \in NIs : \A k \in DOMAIN I[n] : I[n][k].gni \in NIs /\ I[n][k].g \in DOMAIN G[I[n][k].gni]
+  /\ \A n \in NIs : \A g \in DOMAIN G[n] : G[n][g] \subseteq N[n]
+NoDangling == NoDanglingIn(nh, nhg, ip)
 \* C03: the counters are the numbers of installed referrers
 RefsNHG(n, g) == Cardinality({<<m, k>> \in UNION {{<<m2, k2>> : k2 \in DOMAIN ip[m2]} : m2 \in NIs} : ip[m][k].gni = n /\ ip[m][k].g = g})
 RefsNH(n, i) == Cardinality({g \in DOMAIN nhg[n] : i \in nhg[n][g]})
